@@ -16,15 +16,18 @@ type Int32 struct {
 // NewInt32 mirrors atomic.NewInt32.
 func NewInt32(i int32) *Int32 { x := &Int32{}; x.v.Store(i); return x }
 
-func (i *Int32) Load() int32                 { vsync.AtomicPointOn(&i.hh); return i.v.Load() }
-func (i *Int32) Store(v int32)               { vsync.AtomicPointOn(&i.hh); i.v.Store(v) }
-func (i *Int32) Inc() int32                  { vsync.AtomicPointOn(&i.hh); return i.v.Inc() }
-func (i *Int32) Dec() int32                  { vsync.AtomicPointOn(&i.hh); return i.v.Dec() }
-func (i *Int32) Add(d int32) int32           { vsync.AtomicPointOn(&i.hh); return i.v.Add(d) }
-func (i *Int32) Sub(d int32) int32           { vsync.AtomicPointOn(&i.hh); return i.v.Sub(d) }
-func (i *Int32) Swap(v int32) int32          { vsync.AtomicPointOn(&i.hh); return i.v.Swap(v) }
-func (i *Int32) CAS(o, n int32) bool         { vsync.AtomicPointOn(&i.hh); return i.v.CompareAndSwap(o, n) }
-func (i *Int32) CompareAndSwap(o, n int32) bool { vsync.AtomicPointOn(&i.hh); return i.v.CompareAndSwap(o, n) }
+func (i *Int32) Load() int32         { vsync.AtomicPointOn(&i.hh); return i.v.Load() }
+func (i *Int32) Store(v int32)       { vsync.AtomicPointOn(&i.hh); i.v.Store(v) }
+func (i *Int32) Inc() int32          { vsync.AtomicPointOn(&i.hh); return i.v.Inc() }
+func (i *Int32) Dec() int32          { vsync.AtomicPointOn(&i.hh); return i.v.Dec() }
+func (i *Int32) Add(d int32) int32   { vsync.AtomicPointOn(&i.hh); return i.v.Add(d) }
+func (i *Int32) Sub(d int32) int32   { vsync.AtomicPointOn(&i.hh); return i.v.Sub(d) }
+func (i *Int32) Swap(v int32) int32  { vsync.AtomicPointOn(&i.hh); return i.v.Swap(v) }
+func (i *Int32) CAS(o, n int32) bool { vsync.AtomicPointOn(&i.hh); return i.v.CompareAndSwap(o, n) }
+func (i *Int32) CompareAndSwap(o, n int32) bool {
+	vsync.AtomicPointOn(&i.hh)
+	return i.v.CompareAndSwap(o, n)
+}
 
 // Raw reads without a schedule point (inspection only).
 func (i *Int32) Raw() int32 { return i.v.Load() }
